@@ -16,7 +16,7 @@ import (
 // assertion, no division by zero, no impossible allocation, no explicit panic on any path; and the handler
 // returns within a step budget.
 func VerifC08Panics() {
-	s := newStepWorld(stepShape{mods: vModVikja | vModOdal | vModDagaz, preset: 0})
+	s := newStepWorld(stepShape{mods: vModVikja | vModOdal | vModDagaz, preset: 0, prior: verifnd.Bool()})
 	kind := verifnd.Choice(kQuadSample) // dagaz geometry has its own harness (bit-precise floats on cvc5)
 	r := buildRequest(kind, true)
 	joined := verifnd.Bool()
